@@ -383,22 +383,34 @@ class ModelMixin:
         raise Unsupported("type()")
 
     def b_class_TypeError(self, a, k):
-        return self.make_builtin_exc("TypeError", a)
+        e = self.make_builtin_exc("TypeError", a)
+        e.dep = False
+        return e
 
     def b_class_ValueError(self, a, k):
-        return self.make_builtin_exc("ValueError", a)
+        e = self.make_builtin_exc("ValueError", a)
+        e.dep = False
+        return e
 
     def b_class_KeyError(self, a, k):
-        return self.make_builtin_exc("KeyError", a)
+        e = self.make_builtin_exc("KeyError", a)
+        e.dep = False
+        return e
 
     def b_class_AttributeError(self, a, k):
-        return self.make_builtin_exc("AttributeError", a)
+        e = self.make_builtin_exc("AttributeError", a)
+        e.dep = False
+        return e
 
     def b_class_NotImplementedError(self, a, k):
-        return self.make_builtin_exc("NotImplementedError", a)
+        e = self.make_builtin_exc("NotImplementedError", a)
+        e.dep = False
+        return e
 
     def b_class_IndexError(self, a, k):
-        return self.make_builtin_exc("IndexError", a)
+        e = self.make_builtin_exc("IndexError", a)
+        e.dep = False
+        return e
 
     # ------------------------------------------------------------------ stdlib
     def b_copy_deepcopy(self, a, k):
